@@ -586,3 +586,156 @@ def rule_cg_cursor_readers(ctx, R):
             R.finding(fn, "cursor-read:outside-delivery",
                       "%s consults the group's delivery cursor (last_delivered_id); acknowledging, claiming and pending queries are decided by the pending list alone -- after XGROUP SETID moved the cursor back, entries that are still pending lie beyond it and a filter by the cursor makes them impossible to acknowledge / claim / list" % fn.split("::")[-1], b.loc())
     R.floor("delivery_cursor_readers", n)
+
+
+# ---- R-CG-ATOMIC ---------------------------------------------------------------------------------
+_STATE_MUT = re.compile(
+    r"^(std::collections::(HashMap|BTreeMap|HashSet|BTreeSet|VecDeque|BinaryHeap)::<.*>::(insert|remove|remove_entry|clear|retain|push_back|push_front|pop_front|pop_back|extend|drain|append|pop_first|pop_last|split_off|push|pop|truncate)"
+    r"|std::vec::Vec::<.*>::(push|insert|remove|clear|retain|truncate|pop|swap_remove|drain|extend_from_slice|append|dedup)"
+    r"|std::collections::(hash_map|btree_map)::(Entry|VacantEntry|OccupiedEntry)::<.*>::(or_insert|or_insert_with|or_default|insert|insert_entry|remove|remove_entry)"
+    r"|std::sync::atomic::Atomic\w+::(store|fetch_add|fetch_sub|swap|fetch_max|fetch_min))(::<.*>)?$")
+_STATE_REMOVE = re.compile(r"::(remove|remove_entry|pop_front|pop_back|pop|pop_first|pop_last)(::<.*>)?$")
+_SELF_PT = None
+
+
+def _self_pt():
+    """pass-through calls that keep pointing INTO the receiver (no clone / to_vec / take: a copy
+    mutated locally is not a mutation of the state)"""
+    global _SELF_PT
+    if _SELF_PT is None:
+        _SELF_PT = re.compile(
+            r"(^<.* as std::ops::Deref>::deref$|^<.* as std::ops::DerefMut>::deref_mut$"
+            r"|^std::option::Option::<.*>::(unwrap|expect|as_ref|as_mut|as_deref|as_deref_mut)(::<.*>)?$"
+            r"|^std::result::Result::<.*>::(unwrap|expect|as_ref|as_mut|ok)(::<.*>)?$"
+            r"|^<.* as std::ops::Try>::branch$"
+            r"|^<.* as std::ops::Index(Mut)?<.*>>::index(_mut)?$"
+            r"|^std::sync::Arc::<.*>::as_ref$|^<.* as std::convert::AsRef<.*>>::as_ref$|^<.* as std::convert::AsMut<.*>>::as_mut$"
+            r"|^std::sync::(Mutex|RwLock)::<.*>::(lock|try_lock|read|write|try_read|try_write)$"
+            r"|^std::collections::(hash_map|btree_map)::Entry::<.*>::(or_insert_with|or_insert|or_default)(::<.*>)?$"
+            r"|^std::collections::(HashMap|BTreeMap)::<.*>::(entry|get_mut|get|values_mut|iter_mut)(::<.*>)?$"
+            r"|^std::vec::Vec::<.*>::(as_mut_slice|iter_mut|last_mut|first_mut)$|^std::slice::<impl \[.*\]>::(iter_mut|get_mut|last_mut|first_mut)(::<.*>)?$"
+            r"|^<.* as std::iter::IntoIterator>::into_iter$|^<.* as std::iter::Iterator>::next$"
+            r")")
+    return _SELF_PT
+
+
+def state_mut_sites(b):
+    """call sites that mutate state reachable from the receiver (`self`, MIR local 1): a
+    collection / atomic mutation whose receiver operand derives from parameter 1 through
+    projections, guards and in-place accessors.  -> [(block, callee)]"""
+    out = []
+    if b.nargs < 1:
+        return out
+    for i, t in b.calls():
+        f = t["f"] or ""
+        if b.bbs[i]["cleanup"] or not _STATE_MUT.match(f) or not t["a"] or op_is_const(t["a"][0]):
+            continue
+        P = prov.operand_origins(b, t["a"][0], pass_through=_self_pt())
+        if 1 in P.params():
+            out.append((i, f))
+    # stores through a reference into the receiver (`*self.cursor.write().unwrap() = id`,
+    # `self.total = n`)
+    for i, bb in enumerate(b.bbs):
+        if bb["cleanup"]:
+            continue
+        for st in bb["s"]:
+            if st["k"] == "=" and "*" in st["l"]["p"]:
+                if st["l"]["l"] == 1 or 1 in prov.origins(b, st["l"]["l"], pass_through=_self_pt()).params():
+                    out.append((i, "store")); break
+    return out
+
+
+def _mutated_continuation(b, i, f):
+    """blocks after mutation site i on which the state HAS changed: for the remove family only the
+    Some edge (None = nothing was there); for everything else (insert: the old value is gone on
+    both edges) the plain successor"""
+    t = b.term(i)
+    succ = [t["t"]] if t["t"] >= 0 else []
+    if _STATE_REMOVE.search(f) and (b.locals[t["d"]["l"]] or "").startswith("std::option::Option<"):
+        rs = shared.result_switch(b, i)
+        if rs:
+            succ = rs["ok"]
+    return succ
+
+
+def rule_cg_atomic(ctx, R):
+    """refused group administration has no effect, below the dataset level: (a) inside the group
+    objects (storage::consumer_groups) no `Err(..)` result is built on a path after a mutation of
+    the receiver's state; (b) in the XGROUP/XACK/XCLAIM/... handlers no error reply is built on
+    the success continuation of a call to a state-mutating method of those objects"""
+    import rules_cmd
+    MOD = ("storage::consumer_groups::", "storage::stream::Stream::")
+    muts = {}
+    for fn, b in sorted(ctx.prog.bodies.items()):
+        if not fn.startswith(MOD[0]) or "::tests::" in fn or b.kind == "Closure" or fn.endswith("::new"):
+            continue
+        s = state_mut_sites(b)
+        if s:
+            muts[fn] = s
+    # transitive: methods of the module that call a mutator on their own receiver
+    changed = True
+    trans = set(muts)
+    while changed:
+        changed = False
+        for fn, b in ctx.prog.bodies.items():
+            if not fn.startswith(MOD) or "::tests::" in fn or fn in trans:
+                continue
+            if any(callee(t) in trans for _, t in b.calls()):
+                trans.add(fn); changed = True
+    n = 0
+    for fn in sorted(trans):
+        b = ctx.prog.bodies[fn]
+        if not (b.locals[0] or "").startswith("std::result::Result<"):
+            continue
+        errs = [i for i, bb in enumerate(b.bbs) if not bb["cleanup"] for st in bb["s"]
+                if st["k"] == "=" and st["r"]["k"] == "agg" and st["r"]["a"].endswith("Result::Err")]
+        sites = list(muts.get(fn, []))
+        sites += [(i, callee(t)) for i, t in b.calls() if callee(t) in trans and callee(t) != fn and not b.bbs[i]["cleanup"]]
+        for i, f in sites:
+            n += 1
+            if f in trans:
+                rs = shared.result_switch(b, i)
+                succ = rs["ok"] if rs else ([b.term(i)["t"]] if b.term(i)["t"] >= 0 else [])
+            elif f == "store":
+                succ = [i]
+            else:
+                succ = _mutated_continuation(b, i, f)
+            after = cfg.fwd(b, succ)
+            hit = sorted(set(errs) & after)
+            R.inst(fn, "site:%s" % shared.short_callee(f), {"function": fn, "mutation": shared.short_callee(f), "at": b.loc(i), "err_results_in_function": len(errs), "reachable_after_mutation": len(hit)})
+            if hit:
+                R.finding(fn, "group-refusal-after:%s" % shared.short_callee(f),
+                          "%s builds its Err result (line %d) on a path after it already changed the group state (%s, line %d): the refused request has had an effect -- a duplicate XGROUP CREATE answered BUSYGROUP has replaced the live group with an empty one"
+                          % (fn.split("::")[-1], b.bb_line(hit[0]), shared.short_callee(f), b.bb_line(i)), b.loc(i))
+    R.floor("result_returning_state_mutators_sites", n)
+    # (b) handlers
+    nh = 0
+    for fn, b in sorted(ctx.prog.bodies.items()):
+        if not fn.startswith("storage::commands::consumer_groups::") or "::tests::" in fn:
+            continue
+        refs = rules_cmd.refusal_blocks(b)
+        fail_starts = []; msites = []
+        for i, t in b.calls():
+            c = callee(t)
+            if b.bbs[i]["cleanup"]:
+                continue
+            rs = shared.result_switch(b, i) if re.match(r"^std::(result::Result|option::Option)<", b.locals[t["d"]["l"]] or "") and c.startswith("storage::") else None
+            if rs:
+                fail_starts += rs["fail"]
+            if c in trans:
+                msites.append((i, c, rs["ok"] if rs else ([t["t"]] if t["t"] >= 0 else [])))
+        if not msites:
+            continue
+        fail_dom = set()
+        for fs in fail_starts:
+            fail_dom |= cfg.dom_set(b, fs)
+        val_refs = {r for r in refs if r not in fail_dom}
+        for i, c, succ in msites:
+            nh += 1
+            hit = sorted(cfg.fwd(b, succ) & val_refs)
+            R.inst(fn, "call:%s" % c.split("::")[-1], {"handler": fn, "state_mutator": c, "at": b.loc(i), "error_replies_in_function": len(val_refs), "reachable_after_mutation": len(hit)})
+            if hit:
+                R.finding(fn, "group-refusal-after:%s" % c.split("::")[-1],
+                          "an error reply (line %d) is reachable after the group state was already changed by %s (line %d): the refused command has had an effect"
+                          % (b.bb_line(hit[0]), c.split("::")[-1], b.bb_line(i)), b.loc(i))
+    R.floor("handler_state_mutator_calls", nh)
